@@ -134,6 +134,7 @@ pub struct Ctx {
     stats: Mutex<Stats>,
     start: Instant,
     stop: AtomicBool,
+    shrunk: AtomicBool,
     pub hang_is_violation: bool,
     pub hang_limit: Duration,
 }
@@ -170,6 +171,7 @@ impl Ctx {
             stats: Mutex::new(Stats::default()),
             start: Instant::now(),
             stop: AtomicBool::new(false),
+            shrunk: AtomicBool::new(false),
             hang_is_violation: false,
             hang_limit: Duration::from_secs(120),
         }
@@ -306,6 +308,10 @@ impl Ctx {
                             return Ok(());
                         }
                         if in_failure.load(Ordering::SeqCst) {
+                            // another worker already delivered a shrunk counterexample
+                            if self.shrunk.load(Ordering::SeqCst) {
+                                return Ok(());
+                            }
                             // shrinking: bound total time
                             let dl = *shrink_deadline.lock().unwrap();
                             if let Some(dl) = dl {
@@ -336,6 +342,11 @@ impl Ctx {
                         }
                     });
                     if let Err(TestError::Fail(_reason, value)) = r {
+                        if self.shrunk.swap(true, Ordering::SeqCst) {
+                            // one counterexample per run is enough
+                            done.fetch_add(1, Ordering::SeqCst);
+                            return;
+                        }
                         // re-run the minimal case to get its own violation record
                         let res = check(&value, w);
                         let v = match res {
